@@ -17,7 +17,7 @@ RULE = ('The decompositions of C09 (named sub-specifications through add_sub_spe
         'data supplied (whole list offline, current value / current batch online) and get_value(n) of each sub-specification name and of '
         'the output name must equal the result of a stand-alone specification whose text is the formula bound to n (pastified if the '
         'host was), run by the same monitor kind on the same data: the whole signal offline (one value per sample in discrete time), the '
-        'value of the current update online. Lane edited: the object was parsed before with a text that binds the same names to other formulas '
+        'value of the current update online. Lane giant: named bounded operators with windows of 200..700 samples, also two of the same kind over different variables. Lane edited: the object was parsed before with a text that binds the same names to other formulas '
         '(text replaced + parse() again), or both definitions stand in one text (the later one is in force). Non-trivial = a named sub-formula that is temporal and nested >= 2 deep, or operand of a '
         'bounded future operator, or referenced twice; distinct = distinct (modular text, data, kind) digests.')
 
@@ -282,3 +282,25 @@ def cand_edited(case):
 
 LANES.append(Lane('edited', edited_hosts, check, 1000, 12000, cand_edited))
 LANES.append(Lane('pastified_delayed', delayed_hosts, check_finding, 800, 8000, mod_candidates))
+
+
+def giant_hosts(tier):
+    """Named bounded operators with windows of 200..1100 samples (two of the same kind over different variables in one case in
+    five), discrete time offline, online and online after pastify."""
+    from hypothesis import strategies as st
+    from ..common import giant_cases
+
+    @st.composite
+    def mk(draw):
+        kind = draw(st.sampled_from(['dt_off', 'dt_on', 'dt_on', 'dt_on_past']))
+        ops = F.TUN_PAST + (F.TUN_FUT if kind != 'dt_on' else ())
+        c = draw(giant_cases(ops, lengths='long' if kind == 'dt_on_past' else 'any', max_width=700))
+        f = from_json(c['formula'])
+        subs = sorted(set(x for x in F.subterms(f) if x[0] == 'tun' and x[3] - x[2] >= 200 and x != f), key=lambda x: (F.size(x), repr(x)))
+        c.update({'kind': kind, 'subs': subs[:2], 'consts': [], 'bound_const': None, 'delivery': draw(st.sampled_from(['add_sub_spec', 'assertions'])),
+                  'declare_names': draw(st.booleans()), 'decor': None, 'via_file': False, 'late_inline': None, 'extra': None})
+        return c
+    return mk()
+
+
+LANES.append(Lane('giant', giant_hosts, check, 60, 600, None))
